@@ -6,7 +6,7 @@ from __future__ import annotations
 
 import re
 
-from ..models import ModelEval, Raised
+from ..models import ModelEval, Raised, Marker
 from ..peval import Model, Unsupported, ProgramRaised
 from ..poly import Poly, Rat, Fn
 from ..source import AnalysisError
@@ -254,6 +254,28 @@ class Fold:
         return Unpacked(ev)
 
 
+DTYPE_CHAR = {"int8": "b", "uint8": "B", "int16": "h", "uint16": "H", "int32": "i", "uint32": "I", "int64": "q", "uint64": "Q", "float32": "f", "float64": "d",
+              "byte": "b", "ubyte": "B", "short": "h", "intc": "i", "longlong": "q", "single": "f", "double": "d"}
+SIZE.update({"B": 1, "H": 2, "I": 4, "Q": 8}) if isinstance(SIZE, dict) else None
+
+
+def frombuffer_model(fold):
+    """numpy.frombuffer(content, dtype=, count=, offset=): the same decode as struct.unpack of `count` items of the type of `dtype` at `offset`
+    (signedness included: a byte record read as uint8 turns -1 into 255)"""
+    def f(content, dtype=None, count=-1, offset=0, **k):
+        name = dtype if isinstance(dtype, str) else (dtype.data[0].split(".")[-1] if isinstance(dtype, Marker) and dtype.kind == "ext" else
+                                                     dtype[1] if isinstance(dtype, tuple) and dtype[:1] == ("dtype",) else None)
+        char = DTYPE_CHAR.get(str(name).lstrip("<>=|")) if name is not None else None
+        if char is None or char not in SIZE:
+            raise Unsupported("numpy.frombuffer with dtype %r" % (dtype,))
+        if not isinstance(content, Content) or (isinstance(count, int) and count < 0):
+            raise Unsupported("numpy.frombuffer(%r, count=%r)" % (content, count))
+        lo = SI.wrap(offset)
+        hi = lo + SI.wrap(count) * SIZE[char]
+        return fold.unpack("%s%s" % (count if isinstance(count, int) else format(count, ""), char), Bytes(lo, hi))
+    return f
+
+
 class NdBuf(Model):
     """an ndarray allocated by the reader: element/slice writes are recorded, reads return what was written (for concrete
     indices) or a symbolic selection"""
@@ -355,7 +377,7 @@ def layout_hooks(fold, extra_ext=None):
         if isinstance(a, bool):
             return not a
         return Sym(("not", origin_of(a)))
-    ext = {"struct.unpack": fold.unpack, "numpy.zeros": alloc("zeros"), "numpy.empty": alloc("empty"), "numpy.ones": alloc("ones"),
+    ext = {"struct.unpack": fold.unpack, "numpy.frombuffer": frombuffer_model(fold), "numpy.zeros": alloc("zeros"), "numpy.empty": alloc("empty"), "numpy.ones": alloc("ones"),
            "numpy.array": np_array, "numpy.asarray": np_array, "numpy.dtype": lambda t, *a: ("dtype", t),
            "numpy.logical_and": logical_and, "numpy.logical_not": logical_not,
            "numpy.float64": "float64", "numpy.int32": "int32", "numpy.int64": "int64", "numpy.float32": "float32"}
